@@ -648,7 +648,7 @@ func (f *FnVC) makeSlice(st *State, x *ssa.MakeSlice) {
 	n := f.idx64(f.get(x.Len))
 	c := f.idx64(f.get(x.Cap))
 	if f.checks["make"] {
-		o := f.oblige("make", f.srcKey(x.Pos()), st, and(app("bvsge", SBool, n, u64(0)), app("bvsle", SBool, n, c), app("bvsle", SBool, c, u64(1<<40))), x.Pos(), "make: length negative, above capacity, or above 2^40")
+		o := f.oblige("make", f.srcKey(x.Pos()), st, and(app("bvsge", SBool, n, u64(0)), app("bvsle", SBool, n, c), app("bvsle", SBool, c, u64(1<<56))), x.Pos(), "make: length negative, above capacity, or beyond any addressable size (2^56)")
 		_ = o
 	}
 	// after a successful make the sizes are in range
